@@ -6,7 +6,7 @@ import sys
 import pandas as pd
 
 from mcx import sched
-from mcx.common import OPS, PRESENTATIONS, cell, isna, levenshtein, lib, make_tokenizer, seed, ssj
+from mcx.common import frame_rows, OPS, PRESENTATIONS, cell, isna, levenshtein, lib, make_tokenizer, seed, ssj
 from mcx.engine import Layer, run_check
 from py_stringmatching.similarity_measure.jaccard import Jaccard
 from py_stringmatching.similarity_measure.levenshtein import Levenshtein
@@ -57,16 +57,22 @@ THRESH = {'jaccard-method': (0.5, 1.0 / 3), 'overlap-func': (1, 2), 'levenshtein
           'count-qg3': (43.0,)}
 
 
-def frames(lvals, rvals, pres, pad=0):
+KEYS = {'default': (lambda i: 'x%d' % i, lambda j: 10 + j),
+        # 64-bit integer keys that no float64 can represent (odd, beyond 2**53)
+        'big': (lambda i: 2 ** 53 + 1 + 2 * i, lambda j: 2 ** 60 + 3 + 2 * j)}
+
+
+def frames(lvals, rvals, pres, pad=0, kk='default'):
     """Tables with string keys on the left, int keys on the right, an extra attribute each."""
+    lkey, rkey = KEYS[kk]
     n, m = len(lvals) + pad, len(rvals) + pad
     mv = pres.missing_value()
     lv = [mv if isna(v) else v for v in lvals] + ['zz pad'] * pad
     rv = [mv if isna(v) else v for v in rvals] + ['zz pad'] * pad
-    L = pd.DataFrame({'lk': pd.Series(['x%d' % i for i in range(n)], dtype=object),
+    L = pd.DataFrame({'lk': pd.Series([lkey(i) for i in range(n)], dtype=object if kk == 'default' else 'int64'),
                       's': pd.Series(lv, dtype=object), 'p': list(range(100, 100 + n))})
     R = pd.DataFrame({'q': pd.Series(['w%d' % i for i in range(m)], dtype=object),
-                      'rk': [10 + i for i in range(m)], 's': pd.Series(rv, dtype=object)})
+                      'rk': [rkey(i) for i in range(m)], 's': pd.Series(rv, dtype=object)})
     if pres.index == 'dup':
         # rows stored in descending key order (keys are not sorted in general)
         L = L.iloc[::-1].reset_index(drop=True)
@@ -80,10 +86,14 @@ def frames(lvals, rvals, pres, pad=0):
     return L, R
 
 
-def candset(seq, ids, pres):
-    C = pd.DataFrame({'_id': ids, 'l_k': pd.Series(['x%d' % i for i, j in seq], dtype=object),
-                      'r_k': [10 + j for i, j in seq],
+def candset(seq, ids, pres, kk='default'):
+    lkey, rkey = KEYS[kk]
+    C = pd.DataFrame({'_id': ids, 'l_k': pd.Series([lkey(i) for i, j in seq], dtype=object if kk == 'default' else 'int64'),
+                      'r_k': pd.Series([rkey(j) for i, j in seq], dtype='int64'),
                       'extra': pd.Series(['e%d' % k for k in range(len(seq))], dtype=object)})
+    if kk != 'default':     # an all-numeric candidate set, e.g. the output of an earlier join with its score column
+        del C['extra']
+        C['_sim_score'] = pd.Series([0.25 * k for k in range(len(seq))], dtype='float64')
     if len(seq):
         C.index = list(reversed(range(len(seq)))) if pres.index != 'dup' else [0] * len(seq)
     return C
@@ -97,7 +107,8 @@ def id_scheme(kind, n):
     return [7 * i + 3 for i in range(n)]
 
 
-def expected(lvals, rvals, seq, ids, simname, t, op, am, la, ra, score):
+def expected(lvals, rvals, seq, ids, simname, t, op, am, la, ra, score, kk='default'):
+    lkey, rkey = KEYS[kk]
     spec, _, ref = SIMS[simname]
     tok = make_tokenizer(spec) if spec else None
     exp = []
@@ -112,7 +123,7 @@ def expected(lvals, rvals, seq, ids, simname, t, op, am, la, ra, score):
             sc = ref(x, y)
             if not OPS[op](sc, t):
                 continue
-        row = [idv, 'x%d' % i, 10 + j]
+        row = [idv, lkey(i), rkey(j)]
         if la:
             row += [100 + i if c == 'p' else (a if not isna(a) else '<NA>') for c in la]
         if ra:
@@ -136,13 +147,14 @@ def w_matcher(job):
     viol = []
     nviol = calls = cases = nontrivial = 0
     outs = {}
-    L, R = frames(lvals, rvals, pres)
-    Lp, Rp = frames(lvals, rvals, pres, pad=2 * len(lvals) * len(rvals) + 2)
+    kk = job.get('keys', 'default')
+    L, R = frames(lvals, rvals, pres, kk=kk)
+    Lp, Rp = frames(lvals, rvals, pres, pad=2 * len(lvals) * len(rvals) + 2, kk=kk)
     for seq in job['seqs']:
         seq = [tuple(p) for p in seq]
         for idk in job.get('ids', ['gap']):
             ids = id_scheme(idk, len(seq))
-            C = candset(seq, ids, pres)
+            C = candset(seq, ids, pres, kk)
             cases += 1
             cfgs = []
             if mode == 'ops':
@@ -174,12 +186,12 @@ def w_matcher(job):
                 out = lib(ssj.apply_matcher, C, 'l_k', 'r_k', Lx, Rx, 'lk', 'rk', 's', 's', tok, mk(), t, op,
                                         am, la, ra, 'l_', 'r_', score, nj, False)
                 calls += 1
-                exp = expected(lvals, rvals, seq, ids, simname, t, op, am, la, ra, score)
+                exp = expected(lvals, rvals, seq, ids, simname, t, op, am, la, ra, score, kk)
                 if len(seq) == 0:
                     ok = len(out) == 0
                     got = []
                 else:
-                    got = [tuple(cell(v) for v in row) for row in out.values.tolist()]
+                    got = [tuple(cell(v) for v in row) for row in frame_rows(out)]
                     ok = got == exp and list(out.columns) == header(la, ra, score)
                 if exp:
                     nontrivial += 1
@@ -235,6 +247,9 @@ def layers(tier):
     for c in chunks(seqs_of(2, 2), 8):      # NA-backed 'string' columns with pd.NA as missing marker
         jobs.append({'L': T22[0][0], 'R': T22[0][1], 'seqs': c, 'mode': 'ops', 'sims': ['jaccard-method', 'levenshtein-raw'],
                      'pres': 6})
+    for c in chunks(seqs_of(2, 2), 8):      # all-numeric candidate set (int64 keys beyond 2**53 and a float column)
+        jobs.append({'L': T22[1][0], 'R': T22[1][1], 'seqs': c, 'mode': 'ops', 'sims': ['jaccard-method', 'count-ws-bag'],
+                     'pres': pres, 'keys': 'big'})
     S3 = seqs_of(3, 2, maxlen=2, repeats=False) + [[(i, j) for i in range(3) for j in range(2)],
                                                    [(i, j) for j in range(2) for i in (2, 0, 1)]]
     for c in chunks(S3, 8):                 # three left rows labelled 0,1,0: cached and uncached token paths
